@@ -12,11 +12,11 @@ TInit == HInit /\ t \in 1 .. NT /\ l = 1
 
 TStep == /\ l <= Len(Traces[t])
          /\ l' = l + 1 /\ t' = t
-         /\ \/ Ev.ev \in {"starting", "started"} /\ Started    \* request entered / returned
+         /\ \/ Ev.ev = "started" /\ Started
             \/ Ev.ev = "stopreq" /\ StopReq(Ev.active, Ev.st)
             \/ Ev.ev = "final" /\ Final(Ev.st)
             \/ Ev.ev = "hook" /\ Hook(Ev.to, Ev.task, Ev.reason)
-            \/ Ev.ev = "update" /\ Update(Ev.busy, Ev.st)
+            \/ Ev.ev = "update" /\ Update(Ev.busy, Ev.st, Ev.own)
             \/ Ev.ev = "quiet" /\ Quiet(Ev.active, Ev.pending, Ev.busy, Ev.st)
 TSpec == TInit /\ [][TStep]_<<hvars, t, l>>
 Track == TLCSet(t, IF l > TLCGet(t) THEN l ELSE TLCGet(t))
